@@ -43,7 +43,9 @@ ALWAYS = ("ToOptionParser", "OrDefaultParser")
 # result / error / position transformers: optional exactly when the wrapped parser is
 THROUGH = ("MapParser", "MapSoftErrParser", "MapFatalErrParser", "WithPosMapper", "MapToUnitParser",
            "MapCtxParser", "PeekParser", "ToFatalParser", "NoContextParser", "BoxedParser")
-BOTH = ("AndParser",)
+BOTH = ("AndParser",)          # L then R: optional when both are
+ALL3 = ("SurroundParser",)     # left, main, right
+ANY = ("OrParserNoBox",)       # an optional alternative never lets the choice fail
 
 
 def provably_optional(ty, depth=0):
@@ -57,7 +59,20 @@ def provably_optional(ty, depth=0):
         return provably_optional(args[0], depth + 1)
     if name in BOTH and len(args) >= 2:
         return provably_optional(args[0], depth + 1) and provably_optional(args[1], depth + 1)
+    if name in ALL3 and len(args) >= 3:
+        return all(provably_optional(a, depth + 1) for a in args[:3])
+    if name in ANY and len(args) >= 2:
+        return any(provably_optional(a, depth + 1) for a in args[:2])
     return False
+
+
+def walk(ty, cb, depth=0):
+    """call cb(name, args) for every generic type constructor mentioned in ty"""
+    head, args = split_generic(ty)
+    cb(head.split("::")[-1], args)
+    if depth < 80:
+        for a in args:
+            walk(a, cb, depth + 1)
 
 
 def head_chain(ty, n=4):
